@@ -169,3 +169,42 @@ package rosmar
 //@   ensures [C01,C05:WriteCas.delete]     err == nil && !bit(opt, 16) && isnull(raw) && r.present ==> isnull(r2.value) && r2.tombstone == 1 && r2.cas == newCas
 //@   ensures [C01,C07:WriteCas.append]     err == nil && bit(opt, 16) && hasBody(r) && !isnull(raw) ==> r2.value == concat(r.value, raw) && r2.xattrs == r.xattrs && r2.exp == absexp(exp, now) && r2.tombstone == 0
 //@   ensures [C01:WriteCas.casout]         err == nil ==> casOut == newCas
+
+// ---------------------------------------------------------------------------------------------------------------
+// collection+xattrs.go
+
+//@ fn checkCasXattr
+//@   nullable expectedCas
+//@   requires existingCas != nil
+//@   ensures [C02:checkCasXattr.iff]    result == nil <==> (expectedCas == nil || *existingCas == *expectedCas)
+//@   ensures [C02:checkCasXattr.class]  result != nil ==> iscasmismatch(result) && result.Actual == *existingCas && result.Expected == *expectedCas
+//@
+//@ fn (*Bucket).getLastTimestamp
+//@   ensures [C04,C10:getLastTimestamp.reads-bucket-mark] !bucket.closed ==> result == old(bucketLastCas) || result == 0
+//@   ensures [C04:getLastTimestamp.frame] db == old(db)
+//@
+//@ fn (*Collection).setLastCas
+//@   ensures [C04,C10,C12:setLastCas.both] err == nil ==> bucketLastCas == cas && collLast(c.id) == cas
+//@   ensures [C11:setLastCas.frame]        docs == old(docs) && (forall i: Int :: i != c.id ==> collLast(i) == old(collLast(i)))
+//@
+//@ fn (*Collection).writeWithMeta
+//@   let r = old(doc(c.id, key))
+//@   let r2 = doc(c.id, key)
+//@   let cur = if r.present then r.cas else 0
+//@   requires DocInv(r) && IntOK(r)
+//@   requires validX(xattrs) && newCas >= 0
+//@   requires isDeletion <==> isnull(body)
+//@   ensures [C01:writeWithMeta.err-unchanged]   result != nil ==> db == old(db)
+//@   ensures [C08:writeWithMeta.err-noevent]     result != nil ==> lenlist(posted) == 0
+//@   ensures [C05,C06:writeWithMeta.docinv]      DocInv(r2)
+//@   ensures [C11:writeWithMeta.frame]           forall o: DocId :: o != mkId(c.id, key) ==> docAt(o) == old(docAt(o))
+//@   ensures [C11:writeWithMeta.scoped]          stmtsScoped(c.id)
+//@   ensures [C03,C10:writeWithMeta.onetxn]      oneTxn() && sqlAllInTxn() && lockedThroughout("c.bucket.mutex")
+//@   ensures [C10:writeWithMeta.commit-first]    result == nil ==> committed
+//@   ensures [C02:writeWithMeta.cas-necessary]   result == nil ==> oldCas == cur
+//@   ensures [C02:writeWithMeta.cas-rejected]    oldCas != cur ==> result != nil && db == old(db) && (iscasmismatch(result) || isdberr(result) || isclosed(result))
+//@   ensures [C02:writeWithMeta.cas-actual]      iscasmismatch(result) ==> result.Actual == cur && result.Expected == oldCas
+//@   ensures [C01,C05,C07,C14,C17:writeWithMeta.stored] result == nil ==> sameDoc(r2, Row{present: true, rowid: 0, value: body, cas: newCas, exp: absexp(exp, now), xattrs: xattrs, isJSON: b2i(isJSON), tombstone: b2i(isDeletion), rev: nextrev(r)})
+//@   ensures [C08:writeWithMeta.event]           result == nil ==> lenlist(posted) == 1 && posted[0] == eventOf(key, r2) && postsAfterCommit()
+//@   ensures [C12:writeWithMeta.lastcas]         result == nil ==> collLast(c.id) >= newCas
+//@   ensures [C20:writeWithMeta.unlocked]        any: nolocks()
